@@ -209,3 +209,84 @@ Proof.
     intros m nd Hin. pose proof (inv_new _ _ _ I1 m) as X. simpl in X. unfold node_is_new in X.
     rewrite (in_nodup_al_get _ _ _ _ (proj1 (inv_wf _ _ _ I1)) Hin) in X. assumption.
 Qed.
+
+(* ---------- partitions marked by delete_partition: Reset, then only what this transaction wrote ---------- *)
+Lemma su_deleted_get : forall del s0 n p,
+  su_get (fold_left (fun s e => su_update s (fst e) (snd e) (fun _ => PReset [])) del s0) n p =
+  if iset_mem (n, p) del then Some (PReset []) else su_get s0 n p.
+Proof.
+  induction del as [|[n0 p0] r IH]; simpl; intros s0 n p; [reflexivity|].
+  rewrite IH, su_get_update. destruct (iset_mem (n, p) r); simpl; [rewrite orb_true_r; reflexivity|].
+  rewrite orb_false_r. destruct ((n =? n0) && (p =? p0)); reflexivity.
+Qed.
+
+Lemma fold_batch_get : forall (ups : list (key * dbupd)) (acc : list (key * value)) k,
+  NoDup (map fst ups) -> (forall k', In k' (map fst ups) -> al_get k' acc = None) ->
+  al_get k (fold_left batch_update ups acc) =
+  match al_get k ups with Some (USet v) => Some v | Some UDelete => None | None => al_get k acc end.
+Proof.
+  induction ups as [|[k0 u0] r IH]; simpl; intros acc k Hn Hacc; [reflexivity|].
+  inversion Hn; subst.
+  assert (A0 : al_get k0 acc = None) by (apply Hacc; left; reflexivity).
+  destruct u0 as [v|]; unfold batch_update at 2; simpl.
+  - rewrite IH; [|assumption|].
+    + rewrite al_get_im_set. destruct (k =? k0) eqn:E; [|reflexivity].
+      apply N.eqb_eq in E; subst. apply al_get_none_notin in H1. rewrite H1. reflexivity.
+    + intros k' Hin. rewrite al_get_im_set. destruct (k' =? k0) eqn:E.
+      * apply N.eqb_eq in E; subst. contradiction.
+      * apply Hacc. right; assumption.
+  - assert (im_swap_remove k0 acc = acc) as -> by (unfold im_swap_remove; rewrite A0; reflexivity).
+    rewrite IH; [|assumption|intros; apply Hacc; right; assumption].
+    destruct (k =? k0) eqn:E; [|reflexivity].
+    apply N.eqb_eq in E; subst. apply al_get_none_notin in H1. rewrite H1. assumption.
+Qed.
+
+Definition written_value (tv : tsv) : option value :=
+  match tsv_update tv with Some (USet v) => Some v | _ => None end.
+
+Lemma state_updates_lookup_deleted : forall db t n p k,
+  nodes_wf (t_nodes t) -> subs_sorted (t_nodes t) -> iset_mem (n, p) (t_del t) = true ->
+  apply_su (snd (to_state_updates t)) db n p k =
+  match tlookup (t_nodes t) n p k with Some tv => written_value tv | None => None end.
+Proof.
+  intros db t n p k W S D. unfold to_state_updates. simpl. rewrite apply_su_get.
+  rewrite su_nodes_get by auto. unfold su_deleted.
+  assert (Z : su_get (fold_left (fun s e => su_update s (fst e) (snd e) (fun _ => PReset [])) (t_del t) []) n p = Some (PReset [])).
+  { rewrite su_deleted_get, D. reflexivity. }
+  unfold tlookup, find_part. destruct (al_get n (t_nodes t)) as [nd|] eqn:G; [|rewrite Z; reflexivity].
+  destruct (al_get p (tn_parts nd)) as [ps|] eqn:G2; [|rewrite Z; reflexivity].
+  assert (Ns : NoDup (map fst (ps_subs ps))).
+  { apply sorted_nodup. apply (S n p). unfold find_part. rewrite G. assumption. }
+  pose proof (part_updates_nodup _ Ns) as Nu.
+  assert (C : forall k', al_get k' (im_collect (part_updates (ps_subs ps))) = al_get k' (part_updates (ps_subs ps))).
+  { intros. unfold im_collect. rewrite fold_im_set_get by assumption. destruct (al_get k' (part_updates (ps_subs ps))); reflexivity. }
+  assert (Nc : NoDup (map fst (im_collect (part_updates (ps_subs ps))))) by (unfold im_collect; apply fold_im_set_nodup; constructor).
+  unfold part_su. rewrite Z. simpl.
+  destruct (im_collect (part_updates (ps_subs ps))) as [|e ups] eqn:U.
+  - specialize (C k). simpl in C. rewrite al_get_part_updates in C by assumption. unfold written_value.
+    destruct (al_get k (ps_subs ps)) as [tv|]; [|reflexivity]. rewrite <- C. reflexivity.
+  - change (fold_left batch_update ups (batch_update [] e)) with (fold_left batch_update (e :: ups) []).
+    rewrite <- U. rewrite <- U in C. rewrite <- U in Nc. rewrite fold_batch_get; [|assumption|intros; reflexivity].
+    rewrite C, al_get_part_updates by assumption. unfold written_value. simpl.
+    destruct (al_get k (ps_subs ps)) as [tv|]; [|reflexivity]. destruct (tsv_update tv) as [[v|]|]; reflexivity.
+Qed.
+
+Lemma written_value_view : forall tv b v, tsv_ok tv b -> written_value tv = Some v -> tsv_get tv = Some v.
+Proof. destruct tv as [| | |? w| |w|]; try destruct w; unfold written_value; simpl; intros; congruence. Qed.
+
+(* a partition marked by delete_partition holds, after the commit, exactly the values this transaction
+   wrote into it (each of them is what the view holds at that key); nothing of the base survives *)
+Lemma state_updates_deleted : forall db t s n p k, db_wf db -> reach db t s ->
+  iset_mem (n, p) (v_del s) = true ->
+  apply_su (snd (to_state_updates t)) db n p k =
+    match tlookup (t_nodes t) n p k with Some tv => written_value tv | None => None end
+  /\ forall v, apply_su (snd (to_state_updates t)) db n p k = Some v -> al_get k (v_view s n p) = Some v.
+Proof.
+  intros db t s n p k Hdb R D. pose proof (reach_inv _ _ _ Hdb R) as I.
+  assert (E : apply_su (snd (to_state_updates t)) db n p k =
+              match tlookup (t_nodes t) n p k with Some tv => written_value tv | None => None end).
+  { apply state_updates_lookup_deleted; [apply (inv_wf _ _ _ I)|apply (inv_sorted _ _ _ I)|rewrite (inv_del _ _ _ I); assumption]. }
+  split; [assumption|]. intros v. rewrite E. rewrite (inv_view _ _ _ I). unfold tview.
+  destruct (tlookup (t_nodes t) n p k) as [tv|] eqn:L; [|discriminate].
+  intros X. eapply written_value_view; eauto. eapply (inv_ok _ _ _ I); eauto.
+Qed.
